@@ -320,6 +320,8 @@ pub struct Monitor {
     pub polls: u64,
     /// Pooled semantics: only states impacted by the layer's variable are expanded
     pub expect_impacted: bool,
+    /// depth the next call of next_variable must be handed (root depth + layers done), when the harness knows it
+    pub expect_depth: Option<usize>,
 }
 
 pub struct Table {
@@ -630,6 +632,15 @@ impl Problem for Table {
             mon.expansions.push((d, c));
         }
         mon.expansions_in_layer = 0;
+        if mon.check_protocol {
+            if let Some(e) = mon.expect_depth {
+                if e != depth {
+                    drop(mon);
+                    panic!("SYMX-LABEL[C12:nextvar-depth] next_variable handed depth {} but the layer is {} layers below the problem root", depth, e);
+                }
+                mon.expect_depth = Some(e + 1);
+            }
+        }
         let r = if depth < self.sh.n { Some(Variable(self.sh.order[depth])) } else { None };
         mon.last_var = r.map(|v| (depth, v.id()));
         if mon.check_protocol && !self.sh.depth_free {
